@@ -377,13 +377,14 @@ def jobs(tier):
     thorough = tier == "thorough"
     from harness.phase_dispatch import HoldBack
     J = [PhaseKeyBinding(), HoldBack()]      # ("encrypted for exactly that phase": a dilate-N plaintext never reaches the application as message N)
-    for cfg in (ALL_CONFIGS if thorough else CONFIGS):
+    QUICK = [c for c in CONFIGS if c != "alloc-input"]       # (allocate/input entry is exercised in the thorough tier; quick keeps the three set/set orders)
+    for cfg in (ALL_CONFIGS if thorough else QUICK):
         n = len(canonical(cfg, ALL_CONFIGS, False))
         step = 3 if thorough else 6
         for lo in range(0, n + 1, step):
             plain = Tamper(cfg, lo, min(lo + step, n + 1), 1, "relabel")
             J.append(plain)
-            if cfg == "set-set":
+            if cfg == "set-set" and (thorough or lo + step > 12):
                 J.append(Tamper(cfg, lo, min(lo + step, n + 1), 1, "relabel", reconnect=True))
             if lo <= 18 < lo + step and cfg in CONFIGS:
                 # this prefix range of the honest run contains checkpoints where a stored authentic message is still undelivered: delivering it
